@@ -23,7 +23,7 @@ TDeal == /\ Is("TDeal") /\ l' = l + 1
          /\ UNCHANGED <<pre, val>>
 TLoad == /\ Is("TCommitLoad") /\ l' = l + 1
          /\ pre' = [pre EXCEPT ![E.p] = dealt] /\ val' = [val EXCEPT ![E.p] = E.v]
-         /\ viol' = viol \cup V(E.pre = dealt, "DealIsSpec") \cup V(E.published = E.v, "CommitPublishes")
+         /\ viol' = viol \cup V(E.pre = dealt, "DealIsSpec") \cup V(E.published >= E.v, "CommitPublishes")
          /\ UNCHANGED <<dealt, seen>>
 TCas == /\ Is("TCommitCas") /\ l' = l + 1
         /\ dealt' = IF pre[E.p] < val[E.p] /\ dealt = pre[E.p] THEN val[E.p] ELSE dealt
